@@ -147,6 +147,28 @@ let queue_case (toks : string list) : string =
       (match st.M.cst with M.COut -> 1 | _ -> 0) (if int_of_nat st.M.ev > 0 then 1 else 0)
   | _ -> "BADCASE"
 
+(* ---------------- promise core under interleaving (C12) ---------------- *)
+
+let pconc_case (toks : string list) : string =
+  match toks with
+  | [ "Y"; cfg; sched ] ->
+    let cfg = if cfg.[0] = 'r' then String.sub cfg 1 (String.length cfg - 1) else cfg in
+    let ths = match cfg with
+      | "base" -> M.cfg_base | "derived" -> M.cfg_derived | "both" -> M.cfg_both | _ -> M.cfg_two_derived in
+    let n = List.length ths in
+    let acts = ref [] in
+    String.iter (fun c -> let a = Char.code c - 48 in if a >= 0 && a < n then acts := nat_of_int a :: !acts) sched;
+    let st = ref (M.run1 true (List.rev !acts) (M.init0 ths)) in
+    let rounds = ref 0 in
+    while not (M.finished !st) && !rounds < 400 do
+      for i = 0 to n - 1 do st := M.grant true !st (nat_of_int i) done;
+      incr rounds
+    done;
+    let c k = int_of_nat (M.count (nat_of_int k) (!st).M.log) in
+    Printf.sprintf "Y f=%d c1=%d c2=%d c3=%d err=%d" (c 0) (c 1) (c 2) (c 3) (if (!st).M.err0 then 1 else 0)
+  | "F" :: _ -> "F bad=0"
+  | _ -> "BADCASE"
+
 let () =
   let area = Sys.argv.(1) in
   let f = match area with
@@ -154,6 +176,7 @@ let () =
     | "parser" -> parser_case
     | "router" -> router_case
     | "queue" -> queue_case
+    | "pconc" -> pconc_case
     | _ -> failwith ("unknown area " ^ area) in
   try
     while true do
